@@ -287,6 +287,100 @@ class KernelStream(Stream):
         return "pre=~" not in real_out or "blank=~" not in real_out
 
 
+class DataKernelStream(Stream):
+    """the DATA / DATA_START kernel in isolation: a real MultipartDecoder is put into state DATA or
+    DATA_START (public attribute), a buffer and further chunks are fed, Data events are collected
+    until the decoder leaves those states. Model: dataPhase (chunked) and dataSpec (reference).
+    Oracle: payload and delimiter decision of the chunked run == those of feeding everything at once."""
+
+    name = "data-kernel"
+    corpus = [
+        {"b": hx(b"bound"), "start": 0, "buf": hx(b"x\n" + b"y" * 27 + b"\r"), "chunks": [hx(b"\n--bound--\r\n")]},
+        {"b": hx(b"bound"), "start": 1, "buf": hx(b"\r\n--bou"), "chunks": [hx(b"nd--\r\n")]},
+        {"b": hx(b"bound"), "start": 1, "buf": hx(b"\r"), "chunks": [hx(b"\n"), hx(b"v\r\n--bound\r"), hx(b"\nX")]},
+        {"b": hx(b"bound"), "start": 0, "buf": hx(b"xx--boundxx\r\n" + b"y" * 50), "chunks": [hx(b"\r\n--bound\r\n")]},
+    ]
+
+    def cases(self, rng, tier):
+        n = 2500 if tier == "quick" else 40000
+        for _ in range(n):
+            bd = rng.choice([b"bound", b"bound", b"B", b"-", b"a-b", b"0123456789" * 3])
+            nl = rng.choice([b"\r\n", b"\r\n", b"\n", b"\r"])
+            toks = payload_tokens(bd, b"\r\n")
+            payload = b"".join(rng.choice(toks) for _ in range(rng.choice([0, 1, 2, 3, 5])))
+            tail = rng.choice([nl + b"--" + bd + nl + b"Content-", nl + b"--" + bd + b"--" + nl, nl + b"--" + bd + b"--", nl + b"--" + bd + b" \t" + nl + b"X", b"", nl + b"--" + bd])
+            start = rng.random() < 0.5
+            stream = (nl if start else b"") + payload + tail
+            L = len(stream)
+            if L == 0:
+                continue
+            cuts = sorted(set(rng.randrange(1, L) for _ in range(rng.choice([0, 1, 1, 2, 3, 6])))) if L > 1 else []
+            if rng.random() < 0.08 and L > 1:
+                cuts = list(range(1, L))
+            ch = chunks_of(stream, cuts)
+            yield {"b": hx(bd), "start": int(start), "buf": hx(ch[0]), "chunks": [hx(c) for c in ch[1:]]}
+
+    @staticmethod
+    def run(bd, start, pieces):
+        from werkzeug.sansio.multipart import Data, MultipartDecoder, NeedData, State
+
+        d = MultipartDecoder(bd)
+        d.state = State.DATA_START if start else State.DATA
+        payload = b""
+        for i, c in enumerate(pieces):
+            d.receive_data(c)
+            while d.state in (State.DATA, State.DATA_START):
+                ev = d.next_event()
+                if isinstance(ev, NeedData):
+                    break
+                assert isinstance(ev, Data)
+                payload += ev.data
+            if d.state not in (State.DATA, State.DATA_START):
+                rest = bytes(d.buffer) + b"".join(pieces[i + 1 :])
+                return hx(payload) + ":" + b01(d.state == State.EPILOGUE) + ":" + hx(rest)
+        return hx(payload) + ":~"
+
+    def real(self, case):
+        bd = unhx(case["b"])
+        pieces = [unhx(case["buf"])] + [unhx(c) for c in case["chunks"]]
+        return self.run(bd, case["start"], pieces) + "|" + self.run(bd, case["start"], [b"".join(pieces)])
+
+    def model_line(self, case):
+        return line("mp.dataphase", case["b"], case["start"], case["buf"], out_list(case["chunks"]))
+
+    def canon_model(self, case, out):
+        # the reference semantics has no notion of "no decision yet": `~` there means no delimiter
+        a, _, b = out.partition("|")
+        return a + "|" + (b if b != "~" else self._whole_none(case))
+
+    def _whole_none(self, case):
+        bd = unhx(case["b"])
+        pieces = [unhx(case["buf"])] + [unhx(c) for c in case["chunks"]]
+        return self.run(bd, case["start"], [b"".join(pieces)])
+
+    def oracle(self, case, real_out):
+        if real_out.startswith("EXC"):
+            return None
+        split, _, whole = real_out.partition("|")
+        sp, wp = split.split(":"), whole.split(":")
+        if wp[1] == "~":
+            return None if sp[1] == "~" else "chunked run reports a delimiter the single-shot run does not"
+        if sp[:2] != wp[:2]:
+            return f"payload/decision of the chunked run {sp[:2]} differ from single-shot {wp[:2]}"
+        if wp[1] == "0" and sp[2] != wp[2] and unhx(sp[2]) != b"\n" + unhx(wp[2]):
+            return "residual after a non-final delimiter differs by more than the split-CRLF LF"
+        return None
+
+    def bucket(self, case, real_out):
+        if real_out.startswith("EXC"):
+            return real_out
+        w = real_out.partition("|")[2].split(":")
+        return ("start " if case["start"] else "data ") + {"~": "undecided", "0": "part", "1": "closing"}[w[1]]
+
+    def nontrivial(self, case, real_out):
+        return bool(case["chunks"])
+
+
 class SplitStream(Stream):
     name = "decoder-splits"
 
@@ -526,7 +620,7 @@ CHECK = Check(
     prop="C01",
     gen=["Multipart"],
     modules=["WzVerif.Props.C01"],
-    streams=[KernelStream(), SplitStream(), FormStream()],
+    streams=[KernelStream(), DataKernelStream(), SplitStream(), FormStream()],
     assumptions=[
         "CPython `re` (the five patterns compiled by werkzeug.sansio.multipart), bytes.splitlines/strip/find/rfind and str.strip/partition are modelled by hand-written total functions; validated by stream regex-kernels, not verified",
         "horizontal whitespace class [^\\S\\n\\r] and SEARCH_EXTRA_LENGTH are regenerated from the live module on every run; the regex pattern texts are regenerated and compared with the modelled ones by `decide`",
